@@ -452,27 +452,35 @@ PROPS = {
  },
  "C09": {
   "modules": ["OsmoVerif.Props.C09", "OsmoVerif.Props.TieGenIncentives"],
-  "min_theorems": 20,
+  "min_theorems": 29,
   "fingerprints": ["Incentives.*"],
   "engines": [{"name": "incentives", "kind": "app", "n": {"quick": 20000, "thorough": 300000}, "shards": {"quick": 4, "thorough": 16}, "env": NO_EXPORT_IMPORT}],
-  "rule": "histories = one chain state each: 9 pool-owned empty perpetual gauges (imported as creategauge lines) + random lock gauges (perpetual / 1-6 epochs, "
-          "2 lock denoms, the chain's lockable durations, 1-3 of 4 reward denoms incl. the base denom, \"stake\" and two pool-priced ones, amounts from the "
-          "spam range to 1e8, start 2h before / at / 30min, exactly 1h, 1h+1ns, 1-4h after now, rejected variants), top-ups of any id, 3 lock owners locking / "
-          "topping up / begin-unlocking (full and split) / re-addressing rewards to 5 addresses / maturing, the rewb protorev route toggling, minimum value "
-          "1..10000 priced through real balancer pools, 4-12 epochs of 1-3 h through the real AfterEpochEnd in a cache context; an evaluation is one op line "
+  "rule": "histories = one chain state each: 12 pool-owned empty perpetual gauges (imported as creategauge lines) + random lock gauges (perpetual / 1-6 epochs, "
+          "2 lock denoms, the chain's lockable durations, 1-3 of 6 reward denoms incl. the base denom, \"stake\" and four pool-priced ones, amounts from the "
+          "spam range to 1e8, start 2h before / at / 30min, exactly 1h, 1h+1ns, 1-4h after now, rejected variants), top-ups of any id and (1 in 4) of a gauge of the "
+          "finished store, 3 lock owners locking / topping up / begin-unlocking (full and split) / re-addressing rewards to 5 addresses / maturing, the protorev "
+          "routes of rewb / rewe / rewz toggling, MinValueForDistribution 0 / 1..10000 / 1e15 converted through real pools: balancer pools at 1:2..1:50, in 1 of 4 "
+          "histories a balancer pool pricing rewe at 1e9 base units (its quote of the minimum FAILS), a concentrated pool for rewz that in half of the histories "
+          "prices it at 1e9 base units (its quote of the minimum is 0), several gauges and denoms per epoch sharing the minimum-value cache, 1-4+ qualifying "
+          "locks per gauge, 4-12 epochs of 1-3 h through the real AfterEpochEnd in a cache context; an evaluation is one op line "
           "(reset/creategauge/addtogauge/routes/epoch/dump); non-trivial = creategauge, addtogauge and epoch lines; distinct = distinct op lines",
   "trusted_base": ["cosmos-sdk bank keeper (module account modelled as one ledger; SendManyCoins debits the queued total)",
                    "x/lockup lock store and msg server: locks are INPUT to the model (the engine reads GetLocksLongerThanDurationDenom(denom, 1ms), the query "
                    "the distribution itself uses, and cross-checks it with its own book of lock operations)",
-                   "protorev route table + pool CalcOutAmtGivenIn: the minimum-value table is INPUT to the model (read per epoch with the same calls the filter makes)",
+                   "protorev route table + pool CalcOutAmtGivenIn: the QUOTE table (per routed denom the converted minimum, possibly 0, or `the quote fails`) is INPUT to the model "
+                   "(read per epoch with the same calls the filter makes); the per-Distribute cache over it is modelled",
+                   "the concentrated pool that prices rewz: its own NoLock gauge is removed again (incentives and pool-incentives stores restored) before the history starts",
                    "epoch hook wrapper's cache-context atomicity (reproduced by the engine)"],
   "assumptions": ["lock-based ByDuration gauges only: NoLock (concentrated-pool) gauges, group gauges / AllocateAcrossGauges and synthetic (superfluid) denoms are out of scope (not modelled, not generated)",
-                  "lockable durations exceed 1ms (the per-denom lock cache of getDistributeToBaseLocks holds locks of at least 1ms); the pool-priced minimum of a non-base denom is positive",
+                  "lockable durations exceed 1ms (the per-denom lock cache of getDistributeToBaseLocks holds locks of at least 1ms); MinValueForDistribution is denominated in the base coin unit",
                   "the gauge creator can pay (only the credit to the module account is modelled); sdk.Int 256-bit overflow is not modelled",
-                  "three sub-claims are false for the code and are proved false on witnesses (known findings F-C09-receiver, F-C09-finish, F-C09-spam); the positive theorems carry the exact guard"],
+                  "six sub-claims are false for the code and are proved false on witnesses (known findings F19-F21 receiver / finish / spam, F61 zero converted minimum, F62 failing quote, "
+                  "F63 deposit into a finished gauge); the positive theorems carry the exact guard"],
   "explanation": "for every history (induction over op lists from any configuration): distributed <= coins per gauge and denom; module balance >= remainder of all "
                  "(hence all unfinished) gauges and is debited by exactly what is queued; per processed gauge every qualifying lock gets, per denom, exactly "
-                 "floor(remaining*lockAmt/(lockSum*remainingEpochs)) unless below the minimum / unpriced / zero, addressed to its reward receiver, and under "
+                 "floor(remaining*lockAmt/(lockSum*remainingEpochs)) unless below the minimum / unpriced / zero (exactly the property's clause for every denom whose converted "
+                 "minimum is not 0, and for whole epochs when none is; a denom whose converted minimum IS 0 is paid to the first lock that meets it only), addressed to its "
+                 "reward receiver, and under "
                  "consistent receivers every address receives exactly the entries addressed to it; upcoming -> active iff start <= block time; finished gauges are "
                  "never touched again; finishing happens exactly in the epoch with filled+1 = numEpochs and filled grows by one iff a lock qualifies (PARTIAL: "
                  "finished => filled = numEpochs is refuted by a witness); failing operations are no-ops. Model tied to the real keepers by differential run.",
